@@ -80,8 +80,8 @@ class TU:
         self.fid_alias = {}
         self.collapsed = []
         self.inlined = []
-        self._adopt_explicit_self_helpers()
         self._collapse_forwarders()
+        self._adopt_explicit_self_helpers()      # after the collapse: whole-body forwarders have taken their caller's identity already
         self._inline_lock_closures()
 
     # ---- `static void step(Self & self, ...)` in a nested struct / as a static member ---------------------------------------------
